@@ -88,11 +88,14 @@ def gen_improve(rng):
 def gen_bio(rng):
     n = rng.randint(1, 5)
     nb = rng.randint(0, 3)
-    dep = []
+    dep, maxbs, wits = [], [], []
     for _ in range(nb):
-        dep += dense_vector(rng, n)[0]
+        v, mb, w = dense_vector(rng, n)
+        dep += v
+        maxbs.append(mb)
+        wits.append(w + [0] * (n + 2 - len(w)))
     return dict(departure_rankings=dep, cost_matrix_1d=dyadic_table(rng, n), n=n, nb_rankings_departure=nb,
-                dst_min=[0.0] * nb)
+                dst_min=[0.0] * nb, maxbs=maxbs + [0], wits=wits + [[0] * (n + 2)])
 
 
 def register(reg):
@@ -496,22 +499,39 @@ def register(reg):
         gen=lambda rng: gen_improve(rng),
     )
 
+    # row `off .. off+n` of a flattened matrix of bucket-id vectors is dense with maximum mb (witnesses w)
+    reg.spec("def ROWDENSE(d, off, n, mb, w):\n"
+             "    return forall(lambda j: 0 <= d[off + j] and d[off + j] <= mb, 0, n) and "
+             "forall(lambda b: 0 <= w[b] and w[b] < n and d[off + w[b]] == b, 0, mb + 1)",
+             dict(d=Arr(Int), off=Int, n=Int, mb=Int, w=Arr(Int)), Bool)
+
     reg.contract(
-        F + "BioConsert._bio_consert", props=["C04", "C09"],
+        F + "BioConsert._bio_consert", props=["C04", "C09", "C03"],
         params=dict(departure_rankings=Arr(Int), cost_matrix_1d=Arr(Real), n=Int, nb_rankings_departure=Int,
                     dst_min=Arr(Real)),
         requires={"n": "n >= 1 and nb_rankings_departure >= 0",
                   "len_dep": "len(departure_rankings) == nb_rankings_departure * n",
                   "len_c": "len(cost_matrix_1d) == 3 * n * n", "len_dst": "len(dst_min) == nb_rankings_departure",
-                  "range": "forall(lambda p: 0 <= departure_rankings[p] <= n - 1, 0, len(departure_rankings))"},
+                  "range": "forall(lambda p: 0 <= departure_rankings[p] <= n - 1, 0, len(departure_rankings))",
+                  # every departure ranking is a dense bucket-id vector (built so by _departure_rankings: bounded tier)
+                  "rows_dense": "forall(lambda i: ROWDENSE(departure_rankings, i * n, n, maxbs[i], wits[i]), "
+                                "0, nb_rankings_departure)",
+                  "mirror": "forall(lambda t, a: MIRP(cost_matrix_1d, n, t, a), 0, n, 0, n)"},
+        ghost=dict(maxbs=Arr(Int), wits=Arr(Int, 2)),
+        call_ghost={("_improve_one_ranking", "maxb0"): "maxbs[i]", ("_improve_one_ranking", "wit0"): "wits[i]"},
         modifies=["departure_rankings", "dst_min"],
         ensures={
             "range": "forall(lambda p: 0 <= departure_rankings[p] <= n - 1, 0, len(departure_rankings))",
         },
-        after_loop={3: {"init_score": "dst_init == SC(r, 0, cost_matrix_1d, n, n)"}},
+        after_loop={3: {"init_score": "dst_init == SC(r, 0, cost_matrix_1d, n, n)"},
+                    # C04.bc: the score stored for departure i is the score of the improved ranking written back
+                    5: {"row_score": "dst_min[i] == SC(departure_rankings, cpt, cost_matrix_1d, n, n)"}},
+        exit_hints={5: ["sc_shift(r, departure_rankings, cpt, cost_matrix_1d, n, n)"]},
         loops={
             1: dict(inv={"cpt": "cpt == i * n",
                          "len_r": "len(r) == n",
+                         "suffix": "forall(lambda p: departure_rankings[p] == old(departure_rankings)[p], cpt, "
+                                   "len(departure_rankings))",
                          "range": "forall(lambda p: 0 <= departure_rankings[p] <= n - 1, 0, len(departure_rankings))"}),
             2: dict(inv={"cpt2": "cpt2 == cpt + j",
                          "copied": "forall(lambda a: r[a] == departure_rankings[cpt + a], 0, j)"}),
@@ -519,14 +539,20 @@ def register(reg):
             4: dict(inv={"partial": "dst_init == SC(r, 0, cost_matrix_1d, n, id_elem1) + "
                                     "SCrow(r, 0, cost_matrix_1d, n, id_elem1, id_elem2)"}),
             5: dict(inv={"cpt2": "cpt2 == cpt + j",
+                         "suffix": "forall(lambda p: departure_rankings[p] == old(departure_rankings)[p], cpt + n, "
+                                   "len(departure_rankings))",
+                         "dst": "dst_min[i] == SC(r, 0, cost_matrix_1d, n, n)",
                          "range": "forall(lambda p: implies(p < cpt or p >= cpt + j, 0 <= departure_rankings[p] <= n - 1), "
                                   "0, len(departure_rankings))",
                          "copied": "forall(lambda p: departure_rankings[p] == r[p - cpt], cpt, cpt + j)"}),
         },
-        hints={1: ["mul_mono(i, nb_rankings_departure, n)"],
+        hints={1: ["mul_mono(i, nb_rankings_departure, n)",
+                   "ROWDENSE(old(departure_rankings), cpt, n, maxbs[i], wits[i])"],
                2: ["mul_mono(i, nb_rankings_departure, n)"],
                4: ["idx_bound(id_elem1, id_elem2, n)"],
                5: ["mul_mono(i, nb_rankings_departure, n)"]},
+        rt_only={"scores": "forall(lambda i: dst_min[i] == SC(departure_rankings, i * n, cost_matrix_1d, n, n), "
+                           "0, nb_rankings_departure)"},
         gen=lambda rng: gen_bio(rng),
     )
 
@@ -749,3 +775,10 @@ def register_pairsum_lemmas(reg):
     reg.lemma("dqs_is_das", dict(q=Arr(Int), r=Arr(Int), c=Arr(Real), t=Int, n=Int, m=Int, x=Int),
               "DQS(q, r, c, t, n, m) == DAS(r, c, t, n, m, x)", props=PL, induction="m", base="0",
               requires={"rel": "forall(lambda e2: implies(e2 != t, rel(q[t], q[e2]) == ite(r[e2] < x, 1, 0)), 0, m)"})
+
+    SH = dict(r=Arr(Int), d=Arr(Int), off=Int, c=Arr(Real), n=Int)
+    SHR = {"same": "forall(lambda a: r[a] == d[off + a], 0, n)"}
+    reg.lemma("sc_shift_row", dict(SH, a=Int, m=Int), "SCrow(r, 0, c, n, a, m) == SCrow(d, off, c, n, a, m)", props=PL,
+              induction="m", base="0", requires=dict(SHR, a="0 <= a and a < n", m="m <= n"))
+    reg.lemma("sc_shift", dict(SH, m=Int), "SC(r, 0, c, n, m) == SC(d, off, c, n, m)", props=PL, induction="m", base="0",
+              requires=dict(SHR, m="m <= n"), hints=["sc_shift_row(r, d, off, c, n, m, n)"])
